@@ -173,6 +173,12 @@ fn oracle(s: &ProgScene<X>, t: &Trace) -> Vec<Violation> {
                     }
                 }
             }
+        } else if s.extra.stream
+            && st == St::Running
+            && an.ops.iter().any(|o| o.ok() && matches!(s.clients.get(o.c as usize).and_then(|cs| cs.ops.get(o.i as usize)), Some(Op::Restart(_))))
+        {
+            // the stream loop gave up on an accepted restart request: an abnormal end, in the
+            // middle of nothing (the automaton above has seen every callback that did run)
         } else if !cancelled {
             crate::check::oblige("graceful-end");
             if st != St::Stopped {
@@ -388,6 +394,14 @@ fn base_cases(tier: Tier) -> Vec<Case> {
                         v.push(make_case(&[p], spawn, attach.clone(), start_err, false, false));
                     }
                 }
+                // spawn_on_stream / spawn_owning_on_stream leave the restart strategy in place, so
+                // a restart can be sent to such an actor: the stream loop has no restart (it
+                // gives up, an abnormal end) - what it must not do is run half a protocol
+                if matches!(via, StreamVia::SpawnOnStream | StreamVia::SpawnOwningOnStream) {
+                    for p in [vec![A::Restart, A::Call], vec![A::Call, A::Restart, A::Send], vec![A::Restart, A::StopAddr], vec![A::Feed, A::Restart, A::Close]] {
+                        v.push(make_case(&[p], spawn, attach.clone(), start_err, false, false));
+                    }
+                }
                 if tier == Tier::Thorough || via == StreamVia::BuildOnStream {
                     for p in seqs(&salpha, 1) {
                         for q in seqs(&salpha, 1) {
@@ -421,6 +435,6 @@ pub fn property() -> Property {
         cases,
         clauses: &["protocol", "graceful-end", "start-failure", "start-failure-on-restart"],
         full_rerun_check: true,
-        assumptions: &["a restart sent to a stream-attached actor cannot be expressed (Addr::restart needs RestartableActor and the stream builder is non-restartable), so it is not in the stream alphabet"],
+        assumptions: &["a restart can be sent to a stream-attached actor only when it was spawned by spawn_on_stream / spawn_owning_on_stream (the stream builder is non-restartable); the stream loop gives up on it, which counts as an abnormal end: such cases are in the stream alphabet with a few fixed programs"],
     }
 }
